@@ -44,6 +44,10 @@ def ctype(n):
         return "dbl"
     if t == "bool":
         return "bool"
+    if t in ("int", "vita::D_INT", "vita::integer::base_t"):
+        return "int"
+    if t in ("unsigned int", "vita::index_t"):
+        return "uint"
     if t in ("unsigned long", "std::basic_string<char>::size_type", "std::size_t", "size_t"):
         return "nat"
     if t in ("std::basic_string<char>", "std::string", "vita::D_STRING", "basic_string<char>"):
@@ -86,14 +90,18 @@ def to_val(t, ty):
         return "(Val.ofBool %s)" % t
     if ty == "str":
         return "(Val.str %s)" % t
+    if ty == "int":
+        return "(Val.int %s)" % t
     raise Refuse("cannot build a value_t from a %s" % ty)
 
 
 class Tr:
-    def __init__(self, pure=False):
+    def __init__(self, pure=False, fields=None, methods=None):
         self.locals = {}
         self.n = 0
         self.pure = pure        # translating a plain function (no Prog context)
+        self.fields = fields or {}      # data member name -> (Lean parameter, type tag)
+        self.methods = methods or {}    # zero-argument member functions of the same class (inlined)
 
     def fresh(self, p):
         self.n += 1
@@ -131,10 +139,18 @@ class Tr:
                 return self.ex(ks[-1], k)
             if ck == "IntegralToFloating":
                 def conv(t, ty):
+                    if ty == "int":
+                        return k("(FloatOps.ofInt %s)" % t, "dbl")
                     if ty != "nat":
                         raise Refuse("integral-to-floating conversion from %s" % ty)
                     return k("(FloatOps.ofNat %s)" % t, "dbl")
                 return self.ex(ks[-1], conv)
+            if ck == "IntegralToBoolean":
+                def tob(t, ty):
+                    if ty != "int":
+                        raise Refuse("integral-to-boolean conversion from %s" % ty)
+                    return k("(decide (%s ≠ 0))" % t, "bool")
+                return self.ex(ks[-1], tob)
             raise Refuse("cast kind %s" % ck)
         if kd in ("CXXConstructExpr", "CXXTemporaryObjectExpr"):
             if ctype(n) != "val":
@@ -150,11 +166,17 @@ class Tr:
             return k(lit(float(n["value"])), "dbl")
         if kd == "CXXBoolLiteralExpr":
             return k("true" if n["value"] else "false", "bool")
+        if kd == "IntegerLiteral" and ctype(n) == "int":
+            return k("(%d)" % int(n["value"]), "int")
         if kd == "DeclRefExpr":
             name = n.get("referencedDecl", {}).get("name")
             if name in self.locals:
                 return k(*self.locals[name])
             raise Refuse("reference to unknown variable %r" % name)
+        if kd == "MemberExpr" and ks and ks[0].get("kind") == "CXXThisExpr":
+            if n.get("name") in self.fields:
+                return k(*self.fields[n["name"]])
+            raise Refuse("data member %r" % n.get("name"))
         if kd == "CXXOperatorCallExpr":
             name = callee_name(n)
             if name == "operator[]":
@@ -179,6 +201,24 @@ class Tr:
                 return "(.param fun %s =>\n%s)" % (p, k(p, "dbl"))
             if name in ("length", "size") and len(ks) == 1 and ctype(obj) == "str":
                 return self.ex(obj, lambda t, ty: k("(String.utf8ByteSize %s)" % t, "nat"))
+            if name == "fetch_var" and "symbol_params" in qtype(obj) and len(ks) == 2:
+                if self.pure:
+                    raise Refuse("variable request in a plain function")
+                def fv(t, ty):
+                    if ty != "uint":
+                        raise Refuse("fetch_var index of type %s" % ty)
+                    v = self.fresh("v")
+                    return "(.var %s fun %s =>\n%s)" % (t, v, k(v, "val"))
+                return self.ex(ks[1], fv)
+            mobj = kids(ks[0])[0] if ks and kids(ks[0]) else {}
+            if len(ks) == 1 and mobj.get("kind") == "CXXThisExpr" and name in self.methods:
+                # a call of another zero-argument member of the same object: inlined
+                m = self.methods[name]
+                sub = Tr(self.pure, self.fields, {a: b for a, b in self.methods.items() if a != name})
+                sub.n = self.n
+                r = sub.body([c for c in kids(m) if c.get("kind") == "CompoundStmt"], k)
+                self.n = sub.n
+                return r
             raise Refuse("member call %s" % name)
         if kd == "CallExpr":
             name = callee_name(n)
@@ -196,10 +236,10 @@ class Tr:
                 if self.pure:
                     raise Refuse("std::get in a plain function")
                 rt = ctype(n)
-                w = {"dbl": "withDbl", "str": "withStr"}.get(rt)
+                w = {"dbl": "withDbl", "str": "withStr", "int": "withInt"}.get(rt)
                 if w is None:
                     raise Refuse("std::get to %s" % rt)
-                x = self.fresh("x" if rt == "dbl" else "s")
+                x = self.fresh({"dbl": "x", "str": "s", "int": "n"}[rt])
                 return self.ex(args[0], lambda t, ty: "(Val.%s %s fun %s =>\n%s)" % (w, t, x, k(x, rt)))
             if name == "isfinite" and len(args) == 1 and ftype.startswith("bool (double)"):
                 return self.ex(args[0], lambda t, ty: k("(FloatOps.isFinite %s)" % t, "bool"))
@@ -216,6 +256,10 @@ class Tr:
                 return self.ex(args[0], lambda t, ty: k("(issmall %s)" % t, "bool"))
             if name == "epsilon" and not args and ftype.startswith("double ()"):
                 return k(lit(2.0 ** -52), "dbl")
+            if name == "between" and len(args) == 2 and ctype(n) in ("dbl", "int") and \
+                    all(ctype(a) == ctype(n) for a in args):
+                fn = "betweenD" if ctype(n) == "dbl" else "between"
+                return self.seq(args, lambda a: k("(%s %s %s)" % (fn, a[0][0], a[1][0]), ctype(n)))
             raise Refuse("call to %r of type %r" % (name, ftype))
         if kd == "UnaryOperator":
             op = n.get("opcode")
@@ -236,6 +280,9 @@ class Tr:
                         return "(if %s then\n%s\nelse\n%s)" % (t, k("true", "bool"), self.ex(ks[1], k))
                     return self.ex(ks[0], sc)
                 return self.seq(ks, lambda a: k("(%s %s %s)" % (a[0][0], op, a[1][0]), "bool"))
+            if ctype(ks[0]) == "int" and ctype(ks[1]) == "int" and op in ("==", "!=", "<", "<=", ">", ">="):
+                sym = {"==": "=", "!=": "≠", "<=": "≤", ">=": "≥"}.get(op, op)
+                return self.seq(ks, lambda a: k("(decide (%s %s %s))" % (a[0][0], sym, a[1][0]), "bool"))
             if ctype(ks[0]) != "dbl" or ctype(ks[1]) != "dbl":
                 raise Refuse("binary operator %s on %s, %s" % (op, qtype(ks[0]), qtype(ks[1])))
             if op in ARITH:
@@ -388,11 +435,328 @@ def emit(path):
     return [n for n, _ in prims], old is not None and old != txt
 
 
+# ---------------------------------------------------------------------------------------------
+# Everything else a program is made of -> lean/Vita/C13/GenExt.lean:
+#   * the class / member tables of EVERY header of src/kernel/gp/src/primitive/ (from the AST),
+#   * the boolean primitives (bool.h), the terminals `variable` and `constant<T>`,
+#   * `init()` of the parametric terminals real::real / real::integer,
+#   * the constant boolean members (parametric / associative / input),
+#   * `comparison_function_penalty` (comp_penalty.h), the body of every `penalty_nvi`.
+# ---------------------------------------------------------------------------------------------
+import prim_classes  # noqa: E402
+
+
+def only_return(m):
+    body = [c for c in kids(m) if c.get("kind") == "CompoundStmt"]
+    return body
+
+
+def class_fields(cdecl):
+    return [(c.get("name"), c) for c in kids(cdecl) if c.get("kind") == "FieldDecl"]
+
+
+def find_class(ns_doc, name):
+    for c in kids(ns_doc):
+        if c.get("kind") == "CXXRecordDecl" and c.get("completeDefinition") and c.get("name") == name:
+            return c
+    return None
+
+
+def penalty_fn():
+    """`comparison_function_penalty` -> a Lean term over `idx k` = `i->fetch_index(k)`"""
+    docs = ast_dump("real_ext_tu.cc", "vita::comparison_function_penalty")
+    fs = [d for d in docs if d.get("kind") == "FunctionDecl" and d.get("name") == "comparison_function_penalty" and
+          any(c.get("kind") == "CompoundStmt" for c in kids(d))]
+    if len(fs) != 1:
+        raise Refuse("comparison_function_penalty: %d definitions" % len(fs))
+    f = fs[0]
+    if f.get("type", {}).get("qualType") != "double (vita::core_interpreter *)":
+        raise Refuse("comparison_function_penalty has type %r" % f.get("type", {}).get("qualType"))
+    loc = {}
+    interp = set()
+
+    def ex(n):
+        kd, ks = n.get("kind"), kids(n)
+        if kd in WRAP:
+            return ex(ks[0])
+        if kd == "ImplicitCastExpr":
+            ck = n.get("castKind")
+            if ck in ("LValueToRValue", "NoOp"):
+                return ex(ks[0])
+            if ck == "IntegralCast":
+                t, ty = ex(ks[0])
+                if ty == "bool":
+                    return "(Vita.IntE.b2i %s)" % t, "int"
+                if ty in ("int", "idx"):
+                    return t, ty
+                raise Refuse("integral cast of %s" % ty)
+            if ck == "IntegralToFloating":
+                t, ty = ex(ks[0])
+                if ty != "int":
+                    raise Refuse("integral-to-floating of %s" % ty)
+                return "(FloatOps.ofInt %s)" % t, "dbl"
+            raise Refuse("cast %s" % ck)
+        if kd == "IntegerLiteral":
+            return "%d" % int(n["value"]), "int"
+        if kd == "DeclRefExpr":
+            name = n.get("referencedDecl", {}).get("name")
+            if name in loc:
+                return loc[name]
+            raise Refuse("reference to %r" % name)
+        if kd == "CXXMemberCallExpr" and callee_name(n) == "fetch_index" and len(ks) == 2:
+            o = peel(kids(ks[0])[0])
+            while o.get("kind") == "ImplicitCastExpr":
+                o = kids(o)[0]
+            if not (o.get("kind") == "DeclRefExpr" and o.get("referencedDecl", {}).get("name") in interp):
+                raise Refuse("fetch_index on something that is not the interpreter")
+            a = peel(ks[1])
+            while a.get("kind") == "ImplicitCastExpr":
+                a = kids(a)[0]
+            if a.get("kind") != "IntegerLiteral":
+                raise Refuse("fetch_index of a non-literal position")
+            return "(idx %d)" % int(a["value"]), "idx"
+        if kd == "BinaryOperator":
+            op = n.get("opcode")
+            (a, ta), (b, tb) = ex(ks[0]), ex(ks[1])
+            if op == "==" and ta == tb == "idx":
+                return "(decide (%s = %s))" % (a, b), "bool"
+            if op == "!=" and ta == tb == "idx":
+                return "(decide (%s ≠ %s))" % (a, b), "bool"
+            if op in ("+", "-", "*") and ta == tb == "int":
+                return "(%s %s %s)" % (a, op, b), "int"
+            raise Refuse("operator %s on %s, %s" % (op, ta, tb))
+        raise Refuse("penalty expression node %s" % kd)
+
+    body = [c for c in kids(f) if c.get("kind") == "CompoundStmt"][0]
+    ps = [c for c in kids(f) if c.get("kind") == "ParmVarDecl"]
+    for st in kids(body):
+        if st.get("kind") == "DeclStmt":
+            for d in kids(st):
+                if d.get("kind") != "VarDecl" or not kids(d):
+                    raise Refuse("penalty declaration %s" % d.get("kind"))
+                init = kids(d)[0]
+                if init.get("kind") == "CXXStaticCastExpr" and init.get("castKind") == "BaseToDerived":
+                    src = peel(kids(init)[0])
+                    while src.get("kind") == "ImplicitCastExpr":
+                        src = kids(src)[0]
+                    if src.get("referencedDecl", {}).get("name") != ps[0].get("name"):
+                        raise Refuse("the interpreter is not the function's argument")
+                    interp.add(d["name"])
+                    continue
+                if "const" not in d.get("type", {}).get("qualType", ""):
+                    raise Refuse("mutable local %s" % d.get("name"))
+                loc[d["name"]] = ex(init)
+        elif st.get("kind") == "ReturnStmt":
+            t, ty = ex(kids(st)[0])
+            if ty != "dbl":
+                raise Refuse("comparison_function_penalty returns %s" % ty)
+            return t
+        else:
+            raise Refuse("penalty statement %s" % st.get("kind"))
+    raise Refuse("comparison_function_penalty has no return")
+
+
+def translate_ext():
+    scan = prim_classes.header_scan()
+    nss = sorted({n for h in scan.values() for n in h["namespaces"]})
+    classes, funcs, flags, pens, bodies, inits = [], [], [], [], [], []
+    seen_ns = {}
+    for q in nss:
+        if q == "vita":
+            continue            # comp_penalty.h / factory.h: handled below (free function / non-symbol class)
+        short = q.split("::")[-1]
+        docs = ast_dump("real_ext_tu.cc", q) if q != "vita::integer" else ast_dump("int_tu.cc", q)
+        ns = [d for d in docs if d.get("kind") == "NamespaceDecl" and d.get("name") == short]
+        if not ns:
+            raise Refuse("namespace %s (opened by a header of primitive/) not found in the AST" % q)
+        seen_ns[q] = ns
+        for ns_doc in ns:
+            tab = prim_classes.class_table(ns_doc)
+            classes += [(short + "::" + c, b, ms, h) for c, b, ms, h in tab]
+            funcs += [short + "::" + f for f in prim_classes.free_functions(ns_doc)]
+            if q == "vita::integer":
+                continue        # the members of the integer family are C14's (tools/translate_int.py)
+            for cls, base, methods, hdr in tab:
+                cdecl = find_class(ns_doc, cls)
+                for mn in methods:
+                    m = prim_classes.method(ns_doc, cls, mn)
+                    if mn in ("parametric", "associative", "input"):
+                        flags.append((short + "::" + cls, mn, prim_classes.bool_flag(m)))
+                    elif mn == "penalty_nvi":
+                        st = kids([c for c in kids(m) if c.get("kind") == "CompoundStmt"][0])
+                        e = peel(kids(st[0])[0]) if len(st) == 1 and st[0].get("kind") == "ReturnStmt" else {}
+                        if not (e.get("kind") == "CallExpr" and callee_name(e) == "comparison_function_penalty"):
+                            raise Refuse("%s::penalty_nvi is not `return comparison_function_penalty(ci)`" % cls)
+                        pens.append(short + "::" + cls)
+                    elif mn == "init":
+                        fl = {}
+                        for fname, fd in class_fields(cdecl):
+                            fl[fname] = (fname, ctype(fd))
+                        tr = Tr(pure=True, fields=fl)
+                        def reti(t, ty):
+                            if ty != "dbl":
+                                raise Refuse("%s::init returns %s" % (cls, ty))
+                            return t
+                        term = tr.body([c for c in kids(m) if c.get("kind") == "CompoundStmt"], reti)
+                        inits.append((short, cls, [(a, b[1]) for a, b in fl.items()], term))
+                    elif mn == "eval":
+                        if short in ("real", "str"):
+                            continue      # Gen.lean (translate())
+                        bodies.append((short + "_" + cls, "`vita::%s::%s::eval`" % (short, cls), "", eval_body(m)))
+                    elif mn == "display":
+                        pass
+                    else:
+                        raise Refuse("member %s::%s::%s has a body the translator does not know" % (short, cls, mn))
+    # cross-check: every class spelled in a header is in the AST table (factory.h's symbol_factory is not a symbol)
+    names = {c.split("::")[-1] for c, _, _, _ in classes}
+    other = []
+    for h, info in scan.items():
+        for c in info["classes"]:
+            if c not in names:
+                other.append((h, c))
+    docs = ast_dump("real_ext_tu.cc", "vita::symbol_factory")
+    nonsym = []
+    def recs(n, out):
+        if n.get("kind") == "CXXRecordDecl" and n.get("completeDefinition") and not n.get("isImplicit"):
+            out.append(n)
+        for c in n.get("inner", []):
+            if isinstance(c, dict):
+                recs(c, out)
+        return out
+    frecs = []
+    for d in docs:
+        recs(d, frecs)
+    for h, c in other:
+        m = [r for r in frecs if r.get("name") == c]
+        if not m or any(r.get("bases") for r in m):
+            raise Refuse("class %s of %s is in no namespace table and is not a base-less helper of the factory" % (c, h))
+        nonsym.append(c)
+    # variable / constant<T>
+    docs = ast_dump("real_ext_tu.cc", "vita::variable")
+    vs = [d for d in docs if d.get("kind") == "CXXRecordDecl" and d.get("name") == "variable" and d.get("completeDefinition")]
+    if len(vs) != 1:
+        raise Refuse("vita::variable: %d definitions" % len(vs))
+    v = vs[0]
+    vm = {m.get("name"): m for m in kids(v) if m.get("kind") == "CXXMethodDecl" and not m.get("isImplicit") and
+          any(k.get("kind") == "CompoundStmt" for k in kids(m))}
+    classes.append(("variable", (v.get("bases", [{}])[0].get("type", {}).get("qualType", "-")).replace("vita::", ""),
+                    list(vm), "variable.h"))
+    for mn, m in vm.items():
+        if mn == "input":
+            flags.append(("variable", "input", prim_classes.bool_flag(m)))
+        elif mn == "eval":
+            tr = Tr(fields={"var_": ("k", "uint")})
+            bodies.append(("variable", "`vita::variable::eval` (k = var_)", "(k : Nat) ",
+                           tr.body([c for c in kids(m) if c.get("kind") == "CompoundStmt"],
+                                   lambda t, ty: "(.ret %s)" % to_val(t, ty))))
+        elif mn != "display":
+            raise Refuse("member variable::%s" % mn)
+    docs = ast_dump("real_ext_tu.cc", "vita::constant")
+    specs = [d for d in docs if d.get("kind") == "ClassTemplateSpecializationDecl" and d.get("name") == "constant" and
+             d.get("completeDefinition")]
+    kinds = {}
+    for sp in specs:
+        ms = {}
+        for m in kids(sp):
+            if m.get("kind") == "CXXMethodDecl" and not m.get("isImplicit") and \
+                    any(k.get("kind") == "CompoundStmt" for k in kids(m)):
+                ms.setdefault(m.get("name"), []).append(m)
+        fd = dict(class_fields(sp)).get("val_")
+        if fd is None or "eval" not in ms:
+            raise Refuse("constant<T>: no val_ / eval")
+        ty = ctype(fd)
+        lean_ty = {"dbl": "F", "int": "Int", "str": "String"}.get(ty)
+        if lean_ty is None:
+            raise Refuse("constant<%s>" % qtype(fd))
+        ev1 = [m for m in ms["eval"] if any(c.get("kind") == "ParmVarDecl" for c in kids(m))]
+        ev0 = [m for m in ms["eval"] if not any(c.get("kind") == "ParmVarDecl" for c in kids(m))]
+        if len(ev1) != 1 or len(ev0) != 1:
+            raise Refuse("constant<T>::eval overloads")
+        tr = Tr(fields={"val_": ("c", ty)}, methods={"eval": ev0[0]})
+        body = tr.body([c for c in kids(ev1[0]) if c.get("kind") == "CompoundStmt"],
+                       lambda t, ty_: "(.ret %s)" % to_val(t, ty_))
+        nm = {"dbl": "constant_double", "int": "constant_int", "str": "constant_string"}[ty]
+        kinds[nm] = (lean_ty, body, sorted(ms))
+    for nm in sorted(kinds):
+        lean_ty, body, ms = kinds[nm]
+        classes.append((nm.replace("_", "<") + ">", "terminal", ms, "constant.h"))
+        for mn in ms:
+            if mn not in ("eval", "display", "quote_str"):     # quote_str: static helper of display / the name
+                raise Refuse("member %s::%s" % (nm, mn))
+        bodies.append((nm, "`vita::constant<T>::eval` (c = val_)", "(c : %s) " % lean_ty, body))
+    if set(kinds) != {"constant_double", "constant_int", "constant_string"}:
+        raise Refuse("constant<T> instantiations found: %s" % sorted(kinds))
+    return dict(headers=sorted(scan), nonsym=sorted(set(nonsym)), classes=classes, funcs=funcs, flags=flags, pens=pens, bodies=bodies,
+                inits=inits, penalty=penalty_fn())
+
+
+def emit_ext(path):
+    t = translate_ext()
+    L = ["-- GENERATED by tools/translate_real.py from src/kernel/gp/src/primitive/*.h, src/kernel/gp/src/variable.h and",
+         "-- constant.h of the repo working tree; regenerated on every check run; do not edit",
+         "import Vita.Common.Prog", "import Vita.Common.FloatOps", "import Vita.Common.IntE",
+         "namespace Vita.C13.GenExt", "open Vita", "variable {F : Type} [FloatOps F]", ""]
+    L.append("/-- the headers of src/kernel/gp/src/primitive/ -/")
+    L.append("def headers : List String := " + prim_classes.lean_str_list(t["headers"]) + "\n")
+    L.append("/-- every symbol class of those headers (+ variable.h, constant.h): (class, base, members defined with a body, header) -/")
+    L.append("def classes : List (String × String × List String × String) :=\n  [" + ",\n   ".join(
+        '("%s", "%s", %s, "%s")' % (c, b, prim_classes.lean_str_list(ms), h) for c, b, ms, h in t["classes"]) + "]\n")
+    L.append("/-- classes of those headers that are not symbols (no base class): the factory and its helper -/")
+    L.append("def otherClasses : List String := " + prim_classes.lean_str_list(t["nonsym"]) + "\n")
+    L.append("/-- free functions of the primitive namespaces -/")
+    L.append("def functions : List String := " + prim_classes.lean_str_list(t["funcs"]) + "\n")
+    L.append("/-- constant boolean members: (class, member, value) -/")
+    L.append("def flags : List (String × String × Bool) :=\n  [" + ", ".join(
+        '("%s", "%s", %s)' % (c, m, "true" if v else "false") for c, m, v in t["flags"]) + "]\n")
+    L.append("/-- classes whose `penalty_nvi` is `comparison_function_penalty(ci)` -/")
+    L.append("def penalties : List String := " + prim_classes.lean_str_list(t["pens"]) + "\n")
+    L.append("/-- `vita::comparison_function_penalty`; `idx k` is `i->fetch_index(k)` -/")
+    L.append("def compPenalty (idx : Nat → Nat) : F :=\n  " + t["penalty"] + "\n")
+    for nm, doc, params, body in t["bodies"]:
+        L.append("/-- %s -/\ndef %sP %s: Prog F (Val F) :=\n%s\n" % (doc, nm, params, indent(body)))
+    for ns, cls, fields, term in t["inits"]:
+        tys = {"dbl": "F", "int": "Int"}
+        if all(ty == "dbl" for _, ty in fields):
+            sig = "(betweenD : F → F → F) "
+        elif all(ty == "int" for _, ty in fields):
+            sig = "(between : Int → Int → Int) "
+        else:
+            raise Refuse("%s::%s has members of mixed types" % (ns, cls))
+        L.append("/-- `vita::%s::%s::init`; `between%s` stands for `random::between` -/\ndef %s_%sInit %s%s: F :=\n  %s\n" % (
+            ns, cls, "D" if "betweenD" in sig else "", ns, cls, sig,
+            "".join("(%s : %s) " % (f, tys[ty]) for f, ty in fields), term))
+    def body_of(c):
+        ns, _, nm = c.rpartition("::")
+        if ns in ("real",):
+            return "C13.Gen.%sP" % nm
+        if ns == "str":
+            return "C13.Gen.s%sP" % nm
+        if ns == "integer":
+            return "C14.GenNum.numberEval" if nm == "number" else "C14.Gen.%sE" % nm
+        if ns == "boolean":
+            return "C13.GenExt.boolean_%sP" % nm
+        return "C13.GenExt.%sP" % c.replace("<", "_").replace(">", "")
+    L.append("/-- class ↦ the generated definition of its `eval` body -/")
+    L.append("def bodyOf : List (String × String) :=\n  [" + ",\n   ".join(
+        '("%s", "%s")' % (c, body_of(c)) for c, _, ms, _ in t["classes"] if "eval" in ms) + "]\n")
+    L.append("def bodyNames : List String := " + prim_classes.lean_str_list([b[0] for b in t["bodies"]]) + "\n")
+    L.append("end Vita.C13.GenExt\n")
+    txt = "\n".join(L)
+    old = open(path).read() if os.path.exists(path) else None
+    if old != txt:
+        os.makedirs(os.path.dirname(path), exist_ok=True)
+        with open(path, "w") as f:
+            f.write(txt)
+    return t, old is not None and old != txt
+
+
 if __name__ == "__main__":
     here = os.path.dirname(os.path.dirname(os.path.abspath(__file__)))
     try:
         names, changed = emit(os.path.join(here, "lean", "Vita", "C13", "Gen.lean"))
         print("translated:", " ".join(names), "(changed)" if changed else "")
+        t, changed = emit_ext(os.path.join(here, "lean", "Vita", "C13", "GenExt.lean"))
+        print("classes:", " ".join(c[0] for c in t["classes"]), "(changed)" if changed else "")
     except Refuse as e:
         print("REFUSE:", e)
         sys.exit(2)
